@@ -1,8 +1,11 @@
--- GENERATED by tools/c2lean.py from librfn/rand.c -- do not edit; rewritten on every check run
+/-! Reference definition for C17 (hand-maintained, NOT regenerated): the first-generation translation of the pinned
+`librfn/rand.c` (Carta's two 16-bit partial products and the fold), frozen.  The C17 theorems are about it;
+`Props/C17Tie.lean` proves on every run that the definition regenerated from the current source (`Gen/RandSeq.lean`,
+tools/c2lean2.py) computes the same function on every valid seed. -/
 set_option linter.unusedVariables false
-namespace Librfn.Gen.Rand
+namespace Librfn.Ref.Rand
 
-/-- generated from `rand31_r` -/
+/-- frozen translation of `rand31_r` -/
 def rand31_r (seedp_in : BitVec 32) :=
   let lo_1 := (16807#32 * (seedp_in &&& 65535#32))
   let hi_2 := (16807#32 * (seedp_in >>> (16#32).toNat))
@@ -15,4 +18,4 @@ def rand31_r (seedp_in : BitVec 32) :=
   let ret_9 := deref_seedp_8
   (ret_9, deref_seedp_8)
 
-end Librfn.Gen.Rand
+end Librfn.Ref.Rand
